@@ -150,7 +150,7 @@ Fixpoint new_accumulations_loop (last : option skind) (i : nat) (ks : list skind
 Definition new_accumulations (ks : list skind) : list (skind * nat) := new_accumulations_loop None 0 ks.
 
 (* nlAfter: the loop over accums[:length-1]; the result is the set of indices.
-   [fixed = true] is the proposed repair (proposed_fixes/C07-nlafter-last-of-run.diff):
+   [fixed = true] is the proposed repair (/repo 6dbe4ed):
    the fourth case marks the statement just before the comment run instead of
    the first statement of the run. *)
 Fixpoint nl_after_loop (fixed : bool) (accs : list (skind * nat)) : list nat :=
@@ -221,7 +221,7 @@ Definition first_is_comment (multi : list str) : bool :=
   match multi with m :: _ => item_is_comment m | [] => false end.
 
 (* formatArrayLiteral.  [fixed]: indent the closing bracket also after a trailing
-   comment item (proposed_fixes/C07-close-bracket-after-comment.diff). *)
+   comment item (/repo c2656fe). *)
 Definition fmt_array (fixed : bool) (lvl : nat) (multi : list str) (els : list (list piece)) : list piece :=
   match multi with
   | [] => [T k_lbr; T k_rbr]
@@ -262,11 +262,11 @@ Definition fmt_map (fixed : bool) (lvl : nat) (multi : list str) (kvs : list (st
 (* Which of the proposed repairs the model includes.  [current_fixes] is what
    /repo contains now (the correspondence run compares [format current_fixes]
    with Program.Format()); after a repair is committed to /repo, flip its flag here. *)
-Record fixes := { fix_nl : bool;    (* proposed_fixes/C07-nlafter-last-of-run.diff *)
-                  fix_br : bool }.  (* proposed_fixes/C07-close-bracket-after-comment.diff *)
+Record fixes := { fix_nl : bool;    (* /repo 6dbe4ed *)
+                  fix_br : bool }.  (* /repo c2656fe *)
 Definition no_fixes : fixes := {| fix_nl := false; fix_br := false |}.
 Definition all_fixes : fixes := {| fix_nl := true; fix_br := true |}.
-Definition current_fixes : fixes := no_fixes.
+Definition current_fixes : fixes := all_fixes.   (* /repo 6dbe4ed (fix_nl) and c2656fe (fix_br) *)
 
 Section Fmt.
   Variable fixed : fixes.
